@@ -4,3 +4,4 @@ import Props.C09
 import Props.C06
 import Props.C16
 import Props.C14
+import Props.C19
